@@ -29,18 +29,21 @@ inline void maybe_throw(int cls, int id) { if (F.hit(cls)) { TR.emit("{\"e\":\"T
 
 // ---- live-object accounting for objects the library creates (copies / splits of user Range and Body objects)
 extern long g_obj_ctor, g_obj_dtor, g_next_obj;
+extern tbb::task_arena* cur_arena;       // the all-reserved arena the scenario runs in
 
 struct Result { int rc; long steps; };
 
 // Runs `scenario` on logical thread 0 inside arena(N,N); threads 1..N-1 help until it returns.
-inline Result run_in_arena(int N, unsigned long seed, int den, long maxsteps, const std::function<void()>& scenario, bool log_sched = true) {
+inline Result run_in_arena(int N, unsigned long seed, int den, long maxsteps, const std::function<void()>& scenario, bool log_sched = true,
+                           const std::function<void()>& foreign = nullptr) {   // foreign: body of one extra logical thread that stays outside the arena
     tbb::task_arena arena(N, N);
-    arena.initialize();
+    arena.initialize(); cur_arena = &arena;
     tbb::detail::d1::wait_context helpers_wc(1);
     std::vector<tbb::task_group_context*> hctx; for (int i = 0; i < N; i++) hctx.push_back(new tbb::task_group_context(tbb::task_group_context::isolated));
     Sched S; S.stall_limit = 60000; S.log_schedule = log_sched;
     focus_only(false);
-    S.spawn(N, [&](int id) {
+    S.spawn(N + (foreign ? 1 : 0), [&](int id) {
+        if (id == N) { foreign(); return; }
         arena.execute([&] {
             if (id == 0) {
                 try { scenario(); } catch (...) { TR.emit("{\"e\":\"Escaped\"}"); }
@@ -78,4 +81,4 @@ template <class Fn> inline int forked_case(const char* tmpfile, FILE* out, bool&
     return WIFSIGNALED(status) ? 1 : 0;
 }
 }
-#define VS_DEFINE_GLOBALS namespace vs { vh::TraceOut TR; Faults F; long g_obj_ctor = 0, g_obj_dtor = 0, g_next_obj = 0; }
+#define VS_DEFINE_GLOBALS namespace vs { vh::TraceOut TR; Faults F; long g_obj_ctor = 0, g_obj_dtor = 0, g_next_obj = 0; tbb::task_arena* cur_arena = nullptr; }
